@@ -209,6 +209,54 @@ pub fn gen_c19(tier: &str, seed: u64, out: &mut Vec<String>) {
     for _ in 0..n {
         emit_fuzz_case(&mut rng, &temps, out);
     }
+    // crashes that need related operand values and flags (a carry chain ending exactly at all-ones with CF set, a quotient at
+    // the limit, …): the steered single-instruction stream of C01-C06, here judged for crashes only
+    {
+        use crate::gen_instr::Class::*;
+        crate::gen_instr::gen(&[Data, Lea, Stack, CallRet, Branch, Os], tier, seed ^ 0x1919, 2, 8, out);
+    }
+    // crashes that need a history: more returns than calls (negative nesting level), then a step that fails (its error
+    // carries the rendered trace), or a rendering of that state
+    {
+        use crate::gen_prog::*;
+        let m = if tier == "thorough" { 600 } else { 60 };
+        for _ in 0..m {
+            let extra = 1 + rng.below(6) as usize;
+            let fail: Vec<u8> = match rng.below(4) {
+                0 => vec![0x06],                                              // invalid in 64-bit mode
+                1 => vec![0x48, 0xf7, 0xf1],                                  // div rcx, rcx = 0
+                2 => vec![0x48, 0x8b, 0x04, 0x25, 0x00, 0x00, 0x00, 0x00],    // mov rax, [0]
+                _ => vec![0x0f, 0x0b],                                        // ud2
+            };
+            let build = |targets: &[u64]| -> Vec<Ins> {
+                let mut p = vec![mov_r_imm32(1, 0)];
+                for t in targets {
+                    p.push(mov_r_imm32(0, *t as u32));
+                    p.push(push_r(0));
+                }
+                for _ in 0..targets.len() {
+                    p.push(ret());
+                }
+                p.push(ins(&fail));
+                p
+            };
+            let (_, addrs) = assemble(&build(&vec![0; extra]), CODE);
+            let first_ret = 1 + 2 * extra;
+            // popped in reverse order of pushing: ret k goes to ret k+1, the last one to the failing instruction
+            let targets: Vec<u64> = (0..extra).rev().map(|j| addrs[first_ret + j + 1]).collect();
+            let (code, _) = assemble(&build(&targets), CODE);
+            emit_new(out, &code, CODE);
+            out.push(setregs_at(&mut rng, CODE));
+            out.push("stack 400".into());
+            for _ in 0..(3 * extra + 3) {
+                out.push("step".into());
+            }
+            out.push("state".into());
+            out.push("trace".into());
+            out.push("callstack".into());
+            out.push("render".into());
+        }
+    }
 }
 
 /// C20: everything is observed with error texts on; three families — fuzzed single instructions with a fully written
